@@ -385,6 +385,11 @@ func (a *act) applyContract(fs *FuncSpec, fn *ssa.Function, args []Val, cs callS
 		henv.vars = env.vars
 		henv.fnScope = fn
 		wild := false
+		if fs.NoFrame && len(fs.Modifies) == 0 && len(fs.GhostSets) == 0 {
+			// `noframe` without a modifies clause: the body's writes are neither declared nor checked, so a caller
+			// must not assume that anything survives the call
+			a.havocAll(post)
+		}
 		for _, c := range fs.Modifies {
 			if err := henv.havocTarget(c.E, post); err != nil {
 				a.specError(c, err)
